@@ -147,10 +147,10 @@ theorem toFn_msTerm_exact (m : Vector K d) (F : Vector (Vector K n) d) (B : Vect
     rw [hM p hs']
     simp
 
-theorem msSum_exact (m : Vector K d) (F : Vector (Vector K n) d) (B : Vector (Vector K d) n) (E : Vector K n) :
+theorem msSum_exact (m : Vector K d) (mm : Fin d → K) (F : Vector (Vector K n) d) (B : Vector (Vector K d) n) (E : Vector K n) :
     ∀ (sps : List (Vector Bool d × Vector K d)) (i : ℕ) (u : Fin d → K) (Ms : List (Vector K d)),
-      sps ≠ [] → Nested u sps → Ms.map toFn = expMasks (toFn m) u sps →
-      toFn (msSum (exactLevelsFrom m F B i sps) Ms E) = backF B (toFn (matVec F E) * (toFn m * u)) := by
+      sps ≠ [] → Nested u sps → Ms.map toFn = expMasks mm u sps →
+      toFn (msSum (exactLevelsFrom m F B i sps) Ms E) = backF B (toFn (matVec F E) * (mm * u)) := by
   intro sps
   induction sps with
   | nil => intro i u Ms h; exact absurd rfl h
@@ -160,7 +160,7 @@ theorem msSum_exact (m : Vector K d) (F : Vector (Vector K n) d) (B : Vector (Ve
     cases sps with
     | nil =>
       simp only [expMasks] at hMs
-      obtain ⟨M, rfl, hM⟩ : ∃ M, Ms = [M] ∧ toFn M = toFn m * u := by
+      obtain ⟨M, rfl, hM⟩ : ∃ M, Ms = [M] ∧ toFn M = mm * u := by
         obtain ⟨M, Ms', rfl, h1, h2⟩ := List.map_eq_cons_iff.1 hMs
         rw [List.map_eq_nil_iff] at h2
         subst h2
@@ -178,8 +178,8 @@ theorem msSum_exact (m : Vector K d) (F : Vector (Vector K n) d) (B : Vector (Ve
       rw [hz, add_zero]
     | cons sp' sps' =>
       simp only [expMasks] at hMs
-      obtain ⟨M, Ms', rfl, hM, hMs'⟩ : ∃ M Ms', Ms = M :: Ms' ∧ toFn M = toFn m * (u - toFn sp.2) ∧
-          Ms'.map toFn = expMasks (toFn m) (toFn sp.2) (sp' :: sps') := by
+      obtain ⟨M, Ms', rfl, hM, hMs'⟩ : ∃ M Ms', Ms = M :: Ms' ∧ toFn M = mm * (u - toFn sp.2) ∧
+          Ms'.map toFn = expMasks mm (toFn sp.2) (sp' :: sps') := by
         obtain ⟨M, Ms', rfl, h1, h2⟩ := List.map_eq_cons_iff.1 hMs
         exact ⟨M, Ms', rfl, h1, h2⟩
       simp only [exactLevelsFrom, msSum]
@@ -221,11 +221,79 @@ theorem toFn_msForward_exact [BEq K] [LawfulBEq K] (m : Vector K d) (F : Vector 
   have hmasks := msMasksAux_exact m F B sps [] (toFn (onesVec K d)) (by
     rw [toFn_onesVec]; funext p; simp)
   simp only [List.length_nil, List.map_nil, List.nil_append] at hmasks
-  have := msSum_exact m F B E sps 0 (toFn (onesVec K d)) (msMasks (exactLevels m F B sps)) hne hN hmasks
+  have := msSum_exact m (toFn m) F B E sps 0 (toFn (onesVec K d)) (msMasks (exactLevels m F B sps)) hne hN hmasks
   unfold exactLevels at this ⊢
   rw [this, toFn_idealForward, toFn_onesVec]
   congr 1
   funext p; simp
 
 end Ring
+/-! ### `backward`: the conjugated masks telescope in the same way when the windows are real -/
+section RingB
+variable {K : Type} [CommRing K] {d n : ℕ}
+
+/-- windows fixed by the conjugation -/
+def WindowsReal (cj : K → K) (sps : List (Vector Bool d × Vector K d)) : Prop :=
+  ∀ sp ∈ sps, ∀ p : Fin d, cj (toFn sp.2 p) = toFn sp.2 p
+
+theorem expMasks_map_cj (cj : K →+* K) (mm : Fin d → K) :
+    ∀ (sps : List (Vector Bool d × Vector K d)) (u : Fin d → K), WindowsReal cj sps →
+      (expMasks mm u sps).map (fun g p => cj (g p)) = expMasks (fun p => cj (mm p)) (fun p => cj (u p)) sps := by
+  intro sps
+  induction sps with
+  | nil => intro u _; rfl
+  | cons sp sps ih =>
+    intro u hw
+    cases sps with
+    | nil =>
+      simp only [expMasks, List.map_cons, List.map_nil]
+      congr 1
+      funext p; simp
+    | cons sp' sps' =>
+      simp only [expMasks, List.map_cons]
+      have hsp : ∀ p, cj (toFn sp.2 p) = toFn sp.2 p := hw sp (by simp)
+      congr 1
+      · funext p; simp [hsp p]
+      · have := ih (toFn sp.2) (fun q hq => hw q (by simp [hq]))
+        rw [this]
+        congr 1
+        funext p; exact hsp p
+
+theorem windowsReal_iff [BEq K] [LawfulBEq K] (cj : K → K) (sps : List (Vector Bool d × Vector K d)) :
+    windowsReal cj sps = true → WindowsReal cj sps := by
+  intro h sp hsp p
+  simp only [windowsReal, List.all_eq_true, List.mem_finRange, true_implies, beq_iff_eq] at h
+  exact h sp hsp p
+
+theorem toFn_msBackward_exact [BEq K] [LawfulBEq K] (cj : K →+* K) (m : Vector K d) (F : Vector (Vector K n) d)
+    (B : Vector (Vector K d) n) (sps : List (Vector Bool d × Vector K d)) (hne : sps ≠ [])
+    (hok : nestedOK (onesVec K d) sps = true) (hw : windowsReal cj sps = true) (y : Vector K n) :
+    toFn (msBackward cj (exactLevels m F B sps) none y) =
+      toFn (idealForward (Vector.ofFn fun p => cj m[p]) F B y) := by
+  have hN := nested_of_nestedOK sps (onesVec K d) hok
+  have hmasks := msMasksAux_exact m F B sps [] (toFn (onesVec K d)) (by
+    rw [toFn_onesVec]; funext p; simp)
+  simp only [List.length_nil, List.map_nil, List.nil_append] at hmasks
+  have hc : ((msMasks (exactLevels m F B sps)).map fun M => Vector.ofFn fun p => cj M[p]).map toFn =
+      expMasks (fun p => cj (toFn m p)) (toFn (onesVec K d)) sps := by
+    have h1 : ((msMasks (exactLevels m F B sps)).map fun M => Vector.ofFn fun p => cj M[p]).map toFn =
+        ((msMasks (exactLevels m F B sps)).map toFn).map (fun g p => cj (g p)) := by
+      simp only [List.map_map]
+      congr 1
+      funext M
+      simp only [Function.comp, toFn_ofFn]
+      rfl
+    unfold msMasks exactLevels at h1 ⊢
+    rw [h1, hmasks, expMasks_map_cj cj (toFn m) sps _ (windowsReal_iff cj sps hw)]
+    congr 1
+    rw [toFn_onesVec]; funext p; simp
+  have := msSum_exact m (fun p => cj (toFn m p)) F B y sps 0 (toFn (onesVec K d)) _ hne hN hc
+  unfold msBackward
+  unfold exactLevels at this ⊢
+  simp only
+  rw [this, toFn_idealForward, toFn_onesVec, toFn_ofFn]
+  congr 1
+  funext p; simp [toFn]
+
+end RingB
 end HcipyVerif.Coronagraph
